@@ -61,7 +61,7 @@ def check_list(m, bag, e, when, label):
 
 def apply_cmd(m, bag, e, cmd, a, b, day, fresh):
     """run one command on model m, update the abstract bag; returns '' or failure.
-    cmd: 0 put, 1 restore, 2 rm, 3 empty, 4 empty DAYS, 5 put same path again, 6 restore --overwrite onto an occupied destination"""
+    cmd: 0 put, 1 restore, 2 rm, 3 empty, 4 empty DAYS, 5 put same path again, 6 restore --overwrite onto an occupied destination, 7 put of a directory containing its own trash directory"""
     now = fmt_date(day)
     if cmd in (0, 5):
         d = DIRS[a % 3]
@@ -92,6 +92,19 @@ def apply_cmd(m, bag, e, cmd, a, b, day, fresh):
             # destination exists (same path put twice and one copy restored earlier): refused, bag unchanged
             return ''
         bag.items.remove((lst[idx][2], lst[idx][1]))
+        return ''
+    if cmd == 7:
+        # trash-put of a directory into a trash directory that lies INSIDE it (--trash-dir D/.tr D): the rename answers
+        # EINVAL, there is no other candidate: the put must report failure, the directory stays, no element is added
+        d = DIRS[a % 3]
+        _, r = scen.run_model(None, [C('put', ['--trash-dir', d + '/.tr', '--', d], e, now=now, cwd='/')], model=m)
+        if r[0]['exc']:
+            return rt.fail('C09:put-traceback', r[0]['exc'])
+        if r[0]['exit'] == 0 and m.lookup(d, False) is not None:
+            return rt.fail('C09:put-reports-success-for-an-entry-still-in-place', repr(r[0])[:300])
+        _, rl = scen.run_model(None, [C('list', ['--trash-dir', d + '/.tr'], e, cwd='/')], model=m)
+        if K.lines(rl[0]['out']):
+            return rt.fail('C09:failed-put-left-a-listed-entry', repr(rl[0]['out']))
         return ''
     if cmd == 6:
         # trash-restore --overwrite onto an occupied destination: a file entry replaces it (one element leaves the
@@ -234,19 +247,19 @@ def _hist_case(c0, c1, c2, a, b):
 def w_step(n0: int, slots: int, cmd: int, a: int, b: int, top_sticky: bool, lone: bool) -> str:
     """
     pre: PARTITION is None or cmd == PARTITION
-    pre: 0 <= n0 <= 3 and 0 <= slots < 120 and 0 <= cmd < 7 and 0 <= a < 3 and 0 <= b < 4
+    pre: 0 <= n0 <= 3 and 0 <= slots < 120 and 0 <= cmd < 8 and 0 <= a < 3 and 0 <= b < 4
     post: _ == ''
     """
-    return _step_case(rt.sel(n0, 4), rt.sel(slots, 120), rt.sel(cmd, 7), rt.sel(a, 3), rt.sel(b, 4), rt.selb(top_sticky), rt.selb(lone))
+    return _step_case(rt.sel(n0, 4), rt.sel(slots, 120), rt.sel(cmd, 8), rt.sel(a, 3), rt.sel(b, 4), rt.selb(top_sticky), rt.selb(lone))
 
 
 def w_step_q(n0: int, slots: int, cmd: int, a: int, b: int, lone: bool) -> str:
     """
     pre: PARTITION is None or cmd == PARTITION
-    pre: 0 <= n0 <= 3 and 0 <= slots < 40 and 0 <= cmd < 7 and 0 <= a < 3 and 0 <= b < 2
+    pre: 0 <= n0 <= 3 and 0 <= slots < 40 and 0 <= cmd < 8 and 0 <= a < 3 and 0 <= b < 2
     post: _ == ''
     """
-    return _step_case(rt.sel(n0, 4), rt.sel(slots, 40) * 3, rt.sel(cmd, 7), rt.sel(a, 3), rt.sel(b, 2), True, rt.selb(lone))
+    return _step_case(rt.sel(n0, 4), rt.sel(slots, 40) * 3, rt.sel(cmd, 8), rt.sel(a, 3), rt.sel(b, 2), True, rt.selb(lone))
 
 
 def w_hist(c0: int, c1: int, c2: int, a: int, b: int) -> str:
@@ -262,9 +275,9 @@ def obligations(tier):
     enc = K.PUT_FUNCS + K.LIST_FUNCS + K.RESTORE_FUNCS + K.RM_FUNCS + K.EMPTY_FUNCS
     from harness import kpair
     return kpair.obligations(tier) + [
-        CH('W_inductive_step', MOD, 'w_step' if tier == 'thorough' else 'w_step_q', timeout=1800, partitions=list(range(7)), engine='W', regime='selector',
+        CH('W_inductive_step', MOD, 'w_step' if tier == 'thorough' else 'w_step_q', timeout=1800, partitions=list(range(8)), engine='W', regime='selector',
            encodes=enc, stubs=K.STUBS,
-           bounds='pre-state: 0..3 entries x 120 placements (dir, name, trash dir, date; quick: every third placement) ; 7 commands (put, restore, rm, empty, empty DAYS, put again, restore --overwrite onto an occupied destination) x 3 x 4 arguments (quick 3 x 2); .Trash sticky or absent (quick: sticky)'),
+           bounds='pre-state: 0..3 entries x 120 placements (dir, name, trash dir, date; quick: every third placement) ; 8 commands (put, restore, rm, empty, empty DAYS, put again, restore --overwrite onto an occupied destination, put of a directory that contains its trash directory) x 3 x 4 arguments (quick 3 x 2); .Trash sticky or absent (quick: sticky)'),
         CH('W_histories_len_5', MOD, 'w_hist', timeout=1800, partitions=[(c, 4 if tier == 'thorough' else 1) for c in range(6)], engine='W', regime='selector',
            encodes=enc, stubs=K.STUBS,
            bounds='2 puts then every sequence of 3 commands out of 6 kinds x 3 x 4 argument seeds (quick: 3 x 1); trash-list checked after every step'),
